@@ -98,7 +98,13 @@ bool CTRCommon::setKey(const uint8_t *key, size_t len)
         return false;
 
     // Set the key on the underlying block cipher.
-    return blockCipher->setKey(key, len);
+    if (!blockCipher->setKey(key, len))
+        return false;
+
+    // Reset the keystream so that the new key takes effect on the
+    // very next byte, which is how the C library's CTR mode behaves.
+    posn = 16;
+    return true;
 }
 
 /**
